@@ -7,6 +7,15 @@ import os
 import vlib
 
 PROPS = "Properties_C13"
+# leaf functions / constants of digest.c are re-translated from the C source on every run (tools/translate_leaf.py ->
+# coq/gen/Leaf.v, Constants.v) and re-proved equal to the model's (coq/Properties_leaf_digest.v)
+EXTRA_PROPS = ["Properties_leaf_digest"]
+
+
+def REGEN(ctx):
+    vlib.regen_leaf(ctx, ["Digest"])
+
+
 RULE = ("seeds {0,1,max,random} x every length 0..40 (quick) / 0..72 (thorough) plus long buffers x random and "
         "patterned contents (zeros, 0xFF, high-bit bytes) x all 8 alignment offsets for zix_digest32/64/zix_digest; "
         "aligned variants on every word-multiple length at every admissible offset; relational cases: same bytes at "
